@@ -186,6 +186,24 @@ example : Reachable .asIs doneState ∧ BenignFlushes doneState.hist :=
 example : Reachable .asIs aheadState ∧ BenignFlushes aheadState.hist ∧ aheadState.waiters ≠ [] :=
   ⟨aheadState_reachable, by decide +kernel, by decide +kernel⟩
 
+/-- the gated shape needs no condition on the batches: a batch with a tombstone and a key written
+twice across an early flush (`[Delete 1, Put 2 21, Put 1 5]`, flush after the first operation),
+a `Get 1` that can only read the index once the batch has released `db.mu` -/
+def sGated : Schedule := put1 ++
+  [(1, .call (.batch [(1, none), (2, some 21), (1, some 5)])), (2, .call (.get 1)), (1, .acq),
+   (1, .stage), (1, .flush), (1, .index), (1, .resume), (1, .stage), (1, .commit), (1, .index),
+   (1, .index), (1, .seal), (1, .rel), (2, .idxRead), (2, .resolve), (2, .ret), (1, .ret)]
+
+example : Reachable .gated ((exec .gated sGated init).getD init) ∧ Shape.gated.getIdxGated = true ∧
+    ¬ BenignFlushes ((exec .gated sGated init).getD init).hist ∧
+    results ((exec .gated sGated init).getD init) = [(0, .ok), (2, .val (some 5)), (1, .ok)] ∧
+    ((exec .gated sGated init).getD init).log =
+      [.put 1 10 0, .del 1 1, .put 2 21 1, .put 1 5 1, .fin 1] ∧
+    -- while the batch holds the lock the index read is refused
+    exec .gated (sGated.take 13 ++ [(2, .idxRead)]) init = none :=
+  ⟨exec_init_reachable (by decide +kernel), rfl, by decide +kernel, by decide +kernel,
+   by decide +kernel, by decide +kernel⟩
+
 /-- Completed operations.  Whenever a return event `ret t r` is in the history of a reachable state
 (premise as above), the same thread has — before it, with none of its own call / linearization /
 return events in between — a linearization event `lin t op r` with the SAME result, preceded by
